@@ -327,6 +327,7 @@ type Stats struct {
 	BoundCompleted int              `json:"bound_completed"` // min over scenarios
 	BoundMax       int              `json:"bound_max"`
 	Exhaustive     bool             `json:"exhaustive"`
+	Aborted        bool             `json:"aborted,omitempty"` // the shard stopped at a non-terminating execution
 	Counters       map[string]int64 `json:"counters"`
 	Samples        []map[string]any `json:"samples"`
 	Violations     []Violation      `json:"violations"`
@@ -388,6 +389,50 @@ func KeepAlive() {
 	watchdogMu.Unlock()
 }
 
+var (
+	watchdogCfg    *Config
+	watchdogStats  *Stats
+	watchdogScen   string
+	watchdogPrefix []int
+)
+
+// spinningInRepo looks for a goroutine that is running or runnable with a
+// frame of the repository proper (not the verification engine) on its stack
+// and returns that function and the stack.
+func spinningInRepo(dump string) (string, string) {
+	const mod = "gitlab.com/yawning/obfs4.git/"
+	for _, blk := range strings.Split(dump, "\n\n") {
+		lines := strings.Split(blk, "\n")
+		if len(lines) < 2 || !strings.HasPrefix(lines[0], "goroutine ") {
+			continue
+		}
+		if !strings.Contains(lines[0], "[running") && !strings.Contains(lines[0], "[runnable") {
+			continue
+		}
+		if strings.Contains(blk, "mc.startWatchdog") {
+			continue
+		}
+		// the outermost repository function on the stack names the call that
+		// does not return (the innermost one varies from sample to sample)
+		fn := ""
+		for _, l := range lines[1:] {
+			if strings.HasPrefix(l, mod) && !strings.Contains(l, "/internal/zzverif/") && !strings.Contains(strings.ToLower(l), "verif") {
+				fn = strings.TrimPrefix(l, mod)
+				if k := strings.LastIndex(fn, "("); k > 0 {
+					fn = fn[:k]
+				}
+			}
+		}
+		if fn != "" {
+			if len(lines) > 40 {
+				lines = lines[:40]
+			}
+			return fn, strings.Join(lines, "\n")
+		}
+	}
+	return "", ""
+}
+
 // WatchdogLimit is the per-execution hang detector (machinery error, exit 3).
 var WatchdogLimit = 120 * time.Second
 
@@ -399,10 +444,28 @@ func startWatchdog() {
 			at, what := watchdogAt, watchdogWhat
 			watchdogMu.Unlock()
 			if !at.IsZero() && time.Since(at) > WatchdogLimit {
-				fmt.Fprintf(os.Stderr, "MACHINERY: execution hang (> %v) in %s\n", WatchdogLimit, what)
-				debug.SetTraceback("all")
-				buf := make([]byte, 1<<20)
+				buf := make([]byte, 4<<20)
 				n := runtime.Stack(buf, true)
+				dump := string(buf[:n])
+				// a goroutine that is running/runnable inside the code under test
+				// after this long, without ever reaching a scheduling point, is a
+				// loop of the implementation that does not terminate: a violation
+				// (with the stack as its evidence), not a machinery failure
+				if fn, stack := spinningInRepo(dump); fn != "" && watchdogCfg != nil && watchdogStats != nil {
+					watchdogMu.Lock()
+					sc, prefix := watchdogScen, watchdogPrefix
+					watchdogMu.Unlock()
+					watchdogStats.Violations = append(watchdogStats.Violations, Violation{Property: watchdogStats.Property, Scenario: sc, Choices: prefix,
+						Failure: Failure{Oracle: "terminates", Key: watchdogStats.Property + "/hang/" + fn,
+							Msg: fmt.Sprintf("the execution made no progress for %v and never reached a scheduling point: %s is running a loop that does not terminate\n%s", WatchdogLimit, fn, stack)},
+						Repro: 1})
+					watchdogStats.Exhaustive = false
+					watchdogStats.Aborted = true
+					fmt.Fprintf(os.Stderr, "FAIL terminates %s/hang/%s in %s\n", watchdogStats.Property, fn, what)
+					writeStats(watchdogCfg, watchdogStats)
+					os.Exit(1)
+				}
+				fmt.Fprintf(os.Stderr, "MACHINERY: execution hang (> %v) in %s\n", WatchdogLimit, what)
 				os.Stderr.Write(buf[:n])
 				os.Exit(3)
 			}
@@ -425,6 +488,7 @@ func (e *explorer) runOnce(prefix []int, keepLog bool, history []int) (c *Ctx) {
 	}
 	watchdogMu.Lock()
 	watchdogAt, watchdogWhat = time.Now(), fmt.Sprintf("%s prefix=%v history=%v", e.sc.Name, prefix, history)
+	watchdogCfg, watchdogStats, watchdogScen, watchdogPrefix = e.cfg, e.st, e.sc.Name, append([]int{}, prefix...)
 	watchdogMu.Unlock()
 	defer func() {
 		watchdogMu.Lock()
